@@ -28,11 +28,13 @@ type cfgT struct {
 func (c cfgT) coq() string {
 	return fmt.Sprintf("(mkcfg %s %d%%Z %s)", vh.CoqZ(c.epoch), c.nb, vh.CoqBool(c.low))
 }
-func (c cfgT) shift() uint       { return uint(c.nb) + 12 }
-func (c cfgT) width() uint       { return 63 - c.shift() }
-func (c cfgT) tag() string       { return fmt.Sprintf("nb%d-low%v", c.nb, c.low) }
-func (c cfgT) desc() interface{} { return map[string]interface{}{"epoch_ms": c.epoch, "node_bits": c.nb, "node_at_lowest": c.low} }
-func (c cfgT) rep() string       { return fmt.Sprintf("%d,%d,%v", c.epoch, c.nb, c.low) }
+func (c cfgT) shift() uint { return uint(c.nb) + 12 }
+func (c cfgT) width() uint { return 63 - c.shift() }
+func (c cfgT) tag() string { return fmt.Sprintf("nb%d-low%v", c.nb, c.low) }
+func (c cfgT) desc() interface{} {
+	return map[string]interface{}{"epoch_ms": c.epoch, "node_bits": c.nb, "node_at_lowest": c.low}
+}
+func (c cfgT) rep() string { return fmt.Sprintf("%d,%d,%v", c.epoch, c.nb, c.low) }
 func (c cfgT) valid() bool {
 	return (c.nb == 8 || c.nb == 9 || c.nb == 10) && c.epoch >= y2000 && c.epoch < 1<<62
 }
@@ -70,7 +72,9 @@ func withCfg(c cfgT, f func()) {
 
 type f3 [3]int64
 
-func (f f3) coq() string { return fmt.Sprintf("(%s, %s, %s)", vh.CoqZ(f[0]), vh.CoqZ(f[1]), vh.CoqZ(f[2])) }
+func (f f3) coq() string {
+	return fmt.Sprintf("(%s, %s, %s)", vh.CoqZ(f[0]), vh.CoqZ(f[1]), vh.CoqZ(f[2]))
+}
 
 var bad3 = f3{-1, -1, -1}
 
@@ -142,6 +146,9 @@ func (t tmT) coq() string {
 }
 func (t tmT) rep() string { return fmt.Sprintf("%d:%d", t.sec, t.nsec) }
 func (t tmT) desc() string {
+	if t.sec > 250000000000 || t.sec < -60000000000 {
+		return fmt.Sprintf("unix %d s + %d ns", t.sec, t.nsec)
+	}
 	return fmt.Sprintf("unix %d s + %d ns (%s)", t.sec, t.nsec, t.time().UTC().Format(time.RFC3339Nano))
 }
 func tmOfMs(ms int64, subNs int64) tmT {
@@ -252,9 +259,10 @@ func probesOf(c cfgT, ids []int64) (coq string, desc []interface{}, rep string) 
 	return vh.CoqList(ps), desc, strings.Join(rs, ",")
 }
 
+// the offset of a second-truncated instant from the epoch is a value of the (unsigned) timestamp field
 func fitsOff(c cfgT, off *big.Int) bool {
 	lim := new(big.Int).Lsh(big.NewInt(1), c.width())
-	return off.Cmp(new(big.Int).Neg(lim)) >= 0 && off.Cmp(lim) < 0
+	return off.Sign() >= 0 && off.Cmp(lim) < 0
 }
 func offOf(c cfgT, t tmT) *big.Int {
 	r := new(big.Int).Mul(big.NewInt(t.sec), big.NewInt(1000))
